@@ -339,8 +339,10 @@ func init() {
 					}
 					p(r.pickS("pause", "disconnectall"))
 					p("release fail")
-					p("wait")
-					p("resume")
+					if r.chance(50) {
+						p("wait")
+					}
+					p("resume") // resumed before anything armed during the pause could have fired: still nothing may be armed
 					p("wait")
 					p("schedule")
 					p("wait")
@@ -349,8 +351,13 @@ func init() {
 				case 2: // pause before the timer fires; repeated pause/resume
 					p("schedule")
 					p("pause")
-					p("wait")
-					p("resume")
+					if r.chance(50) {
+						p("wait")
+					}
+					p("resume") // Pause must have stopped the timer: nothing fires after an immediate Resume
+					if r.chance(50) {
+						p("wait")
+					}
 					p("schedule")
 					p("wait")
 					p("pause")
